@@ -7,3 +7,9 @@ check('C09',
       'Trusted: CrossHair+z3, the Kahn oracle in harness/c09.py. Outside: signal order during a real evolve(), Django migration planner, graphs beyond the bound.',
       'CrossHair symbolic execution (z3) of utils/graph.py, partitioned, counterexamples replayed concretely',
       design_ref='5.7')
+
+check('C11',
+      'Bounded model checking of the real simulate() code of RenameModel/RenameAppLabel/RenameField/DeleteField/DeleteModel/DeleteApplication: CrossHair explores every path over a 2-app/3-model project whose labels, names, relation structure and mutation parameters are symbolic choices from stated pools, for all sequences of length 1 and 2 (quick: one relation shape; thorough: four shapes / all label pairs); a reference identity model is the oracle. Plus free-string bug-hunting passes.',
+      'Signature level only; foreign keys in a real database (PRAGMA foreign_key_check) are outside. Names come from finite pools (the code hashes them). Trusted: CrossHair+z3, the reference model in harness/c11.py.',
+      'CrossHair symbolic execution (z3) of the mutations simulate() code, partitioned, counterexamples replayed concretely',
+      design_ref='5.8')
